@@ -377,6 +377,13 @@ def main():
     args = [a for a in sys.argv[1:]]
     names = [a for a in args if a in TRANSFORMS] or None
     pids = [a.upper() for a in args if a not in TRANSFORMS] or sorted(p.stem.upper() for p in (VERIF / "rules").glob("c[0-9][0-9].py"))
+    import subprocess
+
+    for pid in pids:  # the clean tree must pass first (otherwise every transformed program fails the same way)
+        r0 = subprocess.run([str(VERIF / "check"), pid, "--tier", "quick"], capture_output=True, text=True)
+        if r0.returncode != 0:
+            print(f"{pid} does not pass on the untransformed tree (exit {r0.returncode}); fix that first")
+            sys.exit(2)
     bad = 0
     for r in run(pids, names):
         if r["findings"] or r["analysis_errors"]:
@@ -384,8 +391,8 @@ def main():
             print(f"{r['property']} {r['transform']}:")
             for x in r["findings"][:8]:
                 print("    FALSE-ALARM", x)
-            for x in r["analysis_errors"][:4]:
-                print("    EXIT2", x)
+            for x in r["analysis_errors"][:2]:
+                print("    EXIT2", x[:200].replace("\n", " "))
     print(f"{bad} (property, transform) pairs with false alarms / analysis errors")
     sys.exit(1 if bad else 0)
 
